@@ -10,6 +10,7 @@ Extra actions understood by WcRun.apply:
   ['child', idx, 'resume' | 'kill' | 'fail']                        -- let child idx finish / kill it / make it fail
 """
 import asyncio
+import collections
 import json
 
 import plumpy
@@ -148,8 +149,17 @@ class WcBase(plumpy.WorkChain):
             return plumpy.Wait(self._do_step, 'waiting (awaitables given directly)', {aw: (keys[0] if len(keys) == 1 else keys) for aw, keys in direct.items()})
         if toctx or st.get('empty_tc'):
             # ('empty_tc': the step returns a context assignment in any case, empty when everything was handed over with to_context())
-            return plumpy.ToContext(**toctx)
+            # ('tc_class': the assignment is an instance of an application's own subclass of ToContext, or of another mapping class of
+            # the standard library that is one -- ToContext is the built-in dict, so an OrderedDict is a ToContext)
+            return TC_CLASSES[self.WCPROGRAM.get('tc_class', 'plain')](**toctx)
         return None
+
+
+class NamedAssignment(plumpy.ToContext):
+    """An application's own subclass of the context assignment"""
+
+
+TC_CLASSES = {'plain': plumpy.ToContext, 'subclass': NamedAssignment, 'ordered': collections.OrderedDict}
 
 
 def _mk(i):
